@@ -25,13 +25,13 @@ import (
 
 // Step is one step of a reader's script.
 type Step struct {
-	Op    string `json:"op"`     // play | pause
-	After int    `json:"after"`  // microseconds to wait before the step
+	Op    string `json:"op"`    // play | pause
+	After int    `json:"after"` // microseconds to wait before the step
 }
 
 // Reader describes one reading client.
 type Reader struct {
-	Transport string `json:"transport"` // udp | tcp | http | ws
+	Transport string `json:"transport"` // udp | tcp | http | ws | mcast (UDP-multicast, at most one reader per run)
 	StartUS   int    `json:"start_us"`
 	Script    []Step `json:"script"`
 	// LeaveUS > 0: the reader closes this long after its last step instead of
@@ -45,24 +45,24 @@ type Reader struct {
 
 // Scenario is one C01 run.
 type Scenario struct {
-	Seed    uint64        `json:"seed"`
-	Net     simnet.Config `json:"net"`
-	Secure  bool          `json:"secure"`
-	Formats []int         `json:"formats"` // formats per media
-	Source  string        `json:"source"`  // stream | publisher
-	PubTr   string        `json:"pub_transport,omitempty"`
-	Readers []Reader      `json:"readers"`
-	Packets int           `json:"packets"` // per format
-	IntUS   int           `json:"interval_us"`
-	StartSeq uint16       `json:"start_seq"`
-	ArbSeq  bool          `json:"arb_seq"`
-	WQ      int           `json:"write_queue"`
-	MaxSize int           `json:"max_payload"`
-	Yields  map[string]core.YieldSpec `json:"yields,omitempty"`
-	ClockOffS int         `json:"clock_off_s"`
+	Seed      uint64                    `json:"seed"`
+	Net       simnet.Config             `json:"net"`
+	Secure    bool                      `json:"secure"`
+	Formats   []int                     `json:"formats"` // formats per media
+	Source    string                    `json:"source"`  // stream | publisher
+	PubTr     string                    `json:"pub_transport,omitempty"`
+	Readers   []Reader                  `json:"readers"`
+	Packets   int                       `json:"packets"` // per format
+	IntUS     int                       `json:"interval_us"`
+	StartSeq  uint16                    `json:"start_seq"`
+	ArbSeq    bool                      `json:"arb_seq"`
+	WQ        int                       `json:"write_queue"`
+	MaxSize   int                       `json:"max_payload"`
+	Yields    map[string]core.YieldSpec `json:"yields,omitempty"`
+	ClockOffS int                       `json:"clock_off_s"`
 }
 
-func reliable(tr string) bool { return tr != "udp" }
+func reliable(tr string) bool { return tr != "udp" && tr != "mcast" }
 
 func gen(seed uint64, tier string) Scenario {
 	r := core.NewRand(seed, "c01")
@@ -115,6 +115,15 @@ func gen(seed uint64, tier string) Scenario {
 		}
 		sc.Readers = append(sc.Readers, rd)
 	}
+	// one reader may use UDP-multicast (hash-derived so that no other choice of the scenario moves)
+	if x := core.HS(seed, "c01.mcast", "", 0); x%100 < 15 {
+		for i := range sc.Readers {
+			if sc.Readers[i].Transport == "udp" || sc.Readers[i].Transport == "tcp" {
+				sc.Readers[i].Transport = "mcast"
+				break
+			}
+		}
+	}
 	sc.StartSeq = uint16(r.Intn(65536))
 	if r.Bool(0.3) {
 		sc.StartSeq = uint16(65536 - r.Range(1, sc.Packets))
@@ -153,7 +162,7 @@ func gen(seed uint64, tier string) Scenario {
 	if allPlain && sc.PubTr != "ws" && r.Bool(0.35) {
 		n.Window = r.Pick(2048, 8192, 65536)
 		for i := range sc.Readers {
-			if sc.Readers[i].Transport != "udp" && r.Bool(0.6) {
+			if reliable(sc.Readers[i].Transport) && r.Bool(0.6) {
 				sc.Readers[i].StallAtUS = sc.Readers[i].StartUS + r.Intn(dur/2+1)
 				sc.Readers[i].StallUS = r.Range(sc.IntUS*10, sc.IntUS*400)
 			}
@@ -178,21 +187,32 @@ func gen(seed uint64, tier string) Scenario {
 			}
 		}
 	}
+	// no holds inside the write queues in multicast runs: the multicast writer's queue is closed
+	// while the stream's mutex is held (see the same filter in C13 and DESIGN 2.3)
+	for _, rd := range sc.Readers {
+		if rd.Transport == "mcast" {
+			for k := range sc.Yields {
+				if strings.HasPrefix(k, "ap.") || strings.HasPrefix(k, "rb.") {
+					delete(sc.Yields, k)
+				}
+			}
+		}
+	}
 	return sc
 }
 
 // ---- bookkeeping -----------------------------------------------------------------
 
 type wpkt struct {
-	counter  int
-	seq      uint16
-	ts       uint32
-	marker   bool
-	payload  []byte
-	callG    uint64 // gseq just before the write call
-	retG     uint64 // gseq just after it returned
-	err      error
-	done     bool
+	counter int
+	seq     uint16
+	ts      uint32
+	marker  bool
+	payload []byte
+	callG   uint64 // gseq just before the write call
+	retG    uint64 // gseq just after it returned
+	err     error
+	done    bool
 }
 
 type fkey struct {
@@ -206,28 +226,28 @@ type rpkt struct {
 }
 
 type interval struct {
-	playRetG   uint64
-	endCallG   uint64 // 0 = still open at the end of the run
+	playRetG uint64
+	endCallG uint64 // 0 = still open at the end of the run
 }
 
 type readerState struct {
-	idx       int
-	spec      Reader
-	client    *gortsplib.Client
-	mu        sync.Mutex
-	recv      map[fkey][]rpkt
-	intervals []interval
-	ssrcs     []*uint32 // from SETUP responses, in setup order
-	lost      uint64
-	decodeErr int
+	idx            int
+	spec           Reader
+	client         *gortsplib.Client
+	mu             sync.Mutex
+	recv           map[fkey][]rpkt
+	intervals      []interval
+	ssrcs          []*uint32 // from SETUP responses, in setup order
+	lost           uint64
+	decodeErr      int
 	firstDecodeErr string
-	diedG     uint64 // the client terminated on its own (Wait returned) at this gseq
-	diedErr   error
-	setupCallG uint64
-	switched  bool
-	apiErr    string
-	desc      *description.Session
-	closedG   uint64
+	diedG          uint64 // the client terminated on its own (Wait returned) at this gseq
+	diedErr        error
+	setupCallG     uint64
+	switched       bool
+	apiErr         string
+	desc           *description.Session
+	closedG        uint64
 }
 
 const runMagic = 0xC0010000
@@ -291,8 +311,11 @@ func tunnelOf(tr string) gortsplib.Tunnel {
 
 func protoOf(tr string) *gortsplib.Protocol {
 	p := gortsplib.ProtocolTCP
-	if tr == "udp" {
+	switch tr {
+	case "udp":
 		p = gortsplib.ProtocolUDP
+	case "mcast":
+		p = gortsplib.ProtocolUDPMulticast
 	}
 	return &p
 }
@@ -309,15 +332,16 @@ func run(t *testing.T, sc Scenario) *core.Result {
 	var summary map[string]any
 	res := sys.Run(t, opts, func(w *sys.World) {
 		w.ProbeInit("queue_full_reported", "reader_paused", "reader_left_early", "seq_wrapped", "udp_reader", "publisher_source",
-			"secure", "tunnel_http", "tunnel_ws", "late_join", "stall_applied", "packets_delivered", "srtp_wrap_between_setup_and_play_waived", "reader_timed_out", "reader_api_error_publisher_gone")
+			"secure", "tunnel_http", "tunnel_ws", "late_join", "stall_applied", "multicast_reader", "multicast_packets_delivered", "packets_delivered", "srtp_wrap_between_setup_and_play_waived", "reader_timed_out", "reader_api_error_publisher_gone")
 		srvNode := w.Net.Node("srv", "10.0.0.1")
 		h := sys.NewHandler(w)
 		srv := &gortsplib.Server{
-			RTSPAddress:    "10.0.0.1:8554",
-			UDPRTPAddress:  "10.0.0.1:8000",
-			UDPRTCPAddress: "10.0.0.1:8001",
-			WriteQueueSize: sc.WQ,
-			Handler:        h,
+			RTSPAddress:      "10.0.0.1:8554",
+			UDPRTPAddress:    "10.0.0.1:8000",
+			UDPRTCPAddress:   "10.0.0.1:8001",
+			WriteQueueSize:   sc.WQ,
+			Handler:          h,
+			MulticastIPRange: "224.1.0.0/16", MulticastRTPPort: 8002, MulticastRTCPPort: 8003,
 		}
 		scheme := "rtsp"
 		if sc.Secure {
@@ -481,8 +505,14 @@ func run(t *testing.T, sc Scenario) *core.Result {
 			readers[i] = rs
 			name := fmt.Sprintf("reader%d", i)
 			names = append(names, name)
-			node := w.Net.Node(name, fmt.Sprintf("10.0.0.%d", 20+i))
+			ip := fmt.Sprintf("10.0.0.%d", 20+i)
+			if spec.Transport == "mcast" {
+				ip = "127.0.0.1" // the client needs a real interface with its local address (net.Interfaces)
+			}
+			node := w.Net.Node(name, ip)
 			switch spec.Transport {
+			case "mcast":
+				w.Probe("multicast_reader")
 			case "udp":
 				w.Probe("udp_reader")
 			case "http":
@@ -747,6 +777,9 @@ func onPacket(w *sys.World, sc *Scenario, rs *readerState, written map[fkey][]*w
 		return
 	}
 	rs.recv[k] = append(prev, rpkt{counter, g})
+	if rs.spec.Transport == "mcast" && len(prev) == 0 {
+		w.Probe("multicast_packets_delivered")
+	}
 	// SSRC announced in the SETUP response (single-format medias only)
 	var announced *uint32
 	if mi < len(rs.ssrcs) {
